@@ -1627,10 +1627,20 @@ static void *peg_unmarshal(JanetMarshalContext *ctx) {
     while (i < blen) {
         uint32_t instr = bytecode[i];
         uint32_t *rule = bytecode + i;
+        /* Number of words left, including the opcode. Operands may only
+         * be read after checking that they are inside the bytecode. */
+        uint32_t avail = blen - i;
+#define PEG_NEED(n) do { if (avail < (n)) goto bad; } while (0)
         op_flags[i] |= 0x02;
         switch (instr) {
             case RULE_LITERAL:
-                i += 2 + ((rule[1] + 3) >> 2);
+                PEG_NEED(2);
+                {
+                    /* [len, bytes...] - computed without wrapping for huge lengths */
+                    uint32_t words = (rule[1] >> 2) + ((rule[1] & 3) ? 1 : 0);
+                    if (words > avail - 2) goto bad;
+                    i += 2 + words;
+                }
                 break;
             case RULE_NCHAR:
             case RULE_NOTNCHAR:
@@ -1652,6 +1662,7 @@ static void *peg_unmarshal(JanetMarshalContext *ctx) {
                 break;
             case RULE_LOOK:
                 /* [offset, rule] */
+                PEG_NEED(3);
                 if (rule[2] >= blen) goto bad;
                 op_flags[rule[2]] |= 0x1;
                 i += 3;
@@ -1660,7 +1671,9 @@ static void *peg_unmarshal(JanetMarshalContext *ctx) {
             case RULE_SEQUENCE:
                 /* [len, rules...] */
             {
+                PEG_NEED(2);
                 uint32_t len = rule[1];
+                if (len > avail - 2) goto bad;
                 for (uint32_t j = 0; j < len; j++) {
                     if (rule[2 + j] >= blen) goto bad;
                     op_flags[rule[2 + j]] |= 0x1;
@@ -1672,6 +1685,7 @@ static void *peg_unmarshal(JanetMarshalContext *ctx) {
             case RULE_IFNOT:
             case RULE_LENPREFIX:
                 /* [rule_a, rule_b (b if not a)] */
+                PEG_NEED(3);
                 if (rule[1] >= blen) goto bad;
                 if (rule[2] >= blen) goto bad;
                 op_flags[rule[1]] |= 0x01;
@@ -1680,12 +1694,14 @@ static void *peg_unmarshal(JanetMarshalContext *ctx) {
                 break;
             case RULE_BETWEEN:
                 /* [lo, hi, rule] */
+                PEG_NEED(4);
                 if (rule[3] >= blen) goto bad;
                 op_flags[rule[3]] |= 0x01;
                 i += 4;
                 break;
             case RULE_ARGUMENT:
                 /* [index, tag] */
+                PEG_NEED(3);
                 if (((int32_t *)rule)[1] < 0) goto bad;
                 i += 3;
                 break;
@@ -1696,11 +1712,13 @@ static void *peg_unmarshal(JanetMarshalContext *ctx) {
                 break;
             case RULE_CONSTANT:
                 /* [constant, tag] */
+                PEG_NEED(3);
                 if (rule[1] >= clen) goto bad;
                 i += 3;
                 break;
             case RULE_CAPTURE_NUM:
                 /* [rule, base, tag] */
+                PEG_NEED(4);
                 if (rule[1] >= blen) goto bad;
                 op_flags[rule[1]] |= 0x01;
                 i += 4;
@@ -1710,6 +1728,7 @@ static void *peg_unmarshal(JanetMarshalContext *ctx) {
             case RULE_CAPTURE:
             case RULE_UNREF:
                 /* [rule, tag] */
+                PEG_NEED(3);
                 if (rule[1] >= blen) goto bad;
                 op_flags[rule[1]] |= 0x01;
                 i += 3;
@@ -1717,6 +1736,7 @@ static void *peg_unmarshal(JanetMarshalContext *ctx) {
             case RULE_REPLACE:
             case RULE_MATCHTIME:
                 /* [rule, constant, tag] */
+                PEG_NEED(4);
                 if (rule[1] >= blen) goto bad;
                 if (rule[2] >= clen) goto bad;
                 op_flags[rule[1]] |= 0x01;
@@ -1726,6 +1746,7 @@ static void *peg_unmarshal(JanetMarshalContext *ctx) {
             case RULE_TIL:
             case RULE_SPLIT:
                 /* [rule, rule] */
+                PEG_NEED(3);
                 if (rule[1] >= blen) goto bad;
                 if (rule[2] >= blen) goto bad;
                 op_flags[rule[1]] |= 0x01;
@@ -1739,17 +1760,20 @@ static void *peg_unmarshal(JanetMarshalContext *ctx) {
             case RULE_TO:
             case RULE_THRU:
                 /* [rule] */
+                PEG_NEED(2);
                 if (rule[1] >= blen) goto bad;
                 op_flags[rule[1]] |= 0x01;
                 i += 2;
                 break;
             case RULE_READINT:
                 /* [ width | (endianness << 5) | (signedness << 6), tag ] */
+                PEG_NEED(3);
                 if ((rule[1] & ~0x30u) > JANET_MAX_READINT_WIDTH) goto bad;
                 i += 3;
                 break;
             case RULE_NTH:
                 /* [nth, rule, tag] */
+                PEG_NEED(4);
                 if (rule[2] >= blen) goto bad;
                 op_flags[rule[2]] |= 0x01;
                 i += 4;
@@ -1757,6 +1781,7 @@ static void *peg_unmarshal(JanetMarshalContext *ctx) {
             default:
                 goto bad;
         }
+#undef PEG_NEED
     }
 
     /* last instruction cannot overflow */
